@@ -98,7 +98,7 @@ theorem relax_stableCreate (s s' : State) (p : Product) (e : Env) (f a pr : Nat)
     (hf : fl ≤ p.debtFloor) (hc : p.debtCeiling ≤ ce)
     (h : stableCreate s p e f a pr x = some s') : stableCreate s (p.relax fl ce) e f a pr x = some s' := by
   unfold stableCreate at h ⊢
-  simp only [relax_mintAndSplit]
+  simp only [stableMintOps, relax_mintAndSplit]
   split at h; · cases h
   next g1 =>
   split at h; · cases h
@@ -117,7 +117,7 @@ theorem relax_stableDeposit (s s' : State) (p : Product) (e : Env) (f a pr v : N
     (hf : fl ≤ p.debtFloor) (hc : p.debtCeiling ≤ ce)
     (h : stableDeposit s p e f a pr v x = some s') : stableDeposit s (p.relax fl ce) e f a pr v x = some s' := by
   unfold stableDeposit at h ⊢
-  simp only [relax_mintAndSplit]
+  simp only [stableMintOps, relax_mintAndSplit]
   split at h; · cases h
   next g1 =>
   cases hfs : findStable s v with
